@@ -3,9 +3,12 @@
 (* Events:  {"e":"Reset","kind":"counted"|"maxsize"|"simple","limit":n,"G":n}   empty directory    *)
 (*          {"e":"OpenBegin"}                              before new policy object + open()       *)
 (*          {"e":"Rename","k":dest gen,"src":src gen,"rc":0|-1,"log":P}   inside FileOperations::rename *)
-(*          {"e":"OpenEnd","res":"ok"|"exception","log":P} after open() returned                   *)
+(*          {"e":"OpenEnd","res":"ok"|"exception","cur":n,"log":P} after open() returned; cur =    *)
+(*                                   generation number in logFileName() (also in WriteEnd)         *)
+(*          {"e":"BadDef","def":"nogen"|"empty","res":..} constructor with a definition without     *)
+(*                                   generation number / without parts                             *)
 (*          {"e":"WriteBegin","id":n,"len":n}              before writeMessage()                   *)
-(*          {"e":"WriteEnd","res":"ok"|"exception","log":P} after writeMessage() returned          *)
+(*          {"e":"WriteEnd","res":"ok"|"exception","cur":n,"log":P} after writeMessage() returned  *)
 (*          {"e":"Close","log":P}                          policy object destroyed                 *)
 (*          {"e":"Kill","log":P}                           injected death after a rename           *)
 (* P = files on disk, ascending generation: [{"g":n,"ids":[..],"lens":[..],"bytes":n,"tail":n},..] *)
@@ -33,9 +36,11 @@ TNext == /\ l <= Len(Log) /\ l' = l + 1
             \/ Ev.e = "Rename" /\ Ev.k = NextRenameDest /\ Ev.src = Ev.k - 1
                  /\ Ev.rc = (IF RenameOk(Ev.k) THEN 0 ELSE -1)
                  /\ RollStep /\ ProjOK(ex', files')
-            \/ Ev.e = "OpenEnd" /\ Ev.res = "ok" /\ (\E roll \in BOOLEAN : OpenEnd(roll)) /\ ProjOK(ex', files')
+            \/ Ev.e = "OpenEnd" /\ Ev.res = "ok" /\ Ev.cur = 0 /\ (\E roll \in BOOLEAN : OpenEnd(roll)) /\ ProjOK(ex', files')
             \/ Ev.e = "WriteBegin" /\ Ev.id = nid /\ Ev.len >= 0 /\ WriteBegin(Ev.len)
-            \/ Ev.e = "WriteEnd" /\ Ev.res = "ok" /\ (\E roll \in BOOLEAN : WriteEnd(roll)) /\ ProjOK(ex', files')
+            \/ Ev.e = "WriteEnd" /\ Ev.res = "ok" /\ Ev.cur = 0 /\ (\E roll \in BOOLEAN : WriteEnd(roll)) /\ ProjOK(ex', files')
+            \/ Ev.e = "BadDef" /\ Ev.res = (IF Ev.def = "empty" \/ kind # "simple" THEN "exception" ELSE "ok")
+                 /\ UNCHANGED vars
             \/ Ev.e = "Close" /\ Close /\ ProjOK(ex', files')
             \/ Ev.e = "Kill" /\ Crash /\ ProjOK(ex', files')
             \/ /\ Ev.e = "Reset" /\ Ev.kind \in {"counted", "maxsize", "simple"} /\ Ev.G >= 1
